@@ -153,6 +153,28 @@ func WithSpare[T any](name string, s []T, maxSpare int) []T {
 	return ns
 }
 
+func Or(a, b bool) bool      { return a || b }
+func And(a, b bool) bool     { return a && b }
+func Implies(a, b bool) bool { return !a || b }
+func IteInt(c bool, a, b int) int {
+	if c {
+		return a
+	}
+	return b
+}
+func IteF(c bool, a, b float64) float64 {
+	if c {
+		return a
+	}
+	return b
+}
+func IteU64(c bool, a, b uint64) uint64 {
+	if c {
+		return a
+	}
+	return b
+}
+
 // RunReplay is called from the generated TestZZReplay.
 func RunReplay(t *testing.T, funcs map[string]func()) {
 	path := os.Getenv("ZZVERIF_REPLAY")
